@@ -66,7 +66,7 @@ theorem decodeOpen_raw (ext : Bool) (myAs hold bgpId : Nat) (p : Bytes)
 /-- What the walk answers on a well-framed parameter whose type is not 2. -/
 theorem walkParams_other (ext : Bool) (k : Nat) (v tail : Bytes) (hk : k ≠ 2)
     (hv : v.length < (if ext then 65536 else 256)) (fuel : Nat) :
-    walkParams ext (fuel + 1) (rawParam ext k v ++ tail) = .error (if k = 1 then ⟨2, 5⟩ else malformed) := by
+    walkParams ext (fuel + 1) (rawParam ext k v ++ tail) = .error (if k = 1 then ⟨2, 5⟩ else ⟨2, 4⟩) := by
   cases ext with
   | false =>
     have e : rawParam false k v ++ tail = k :: v.length :: (v ++ tail) := by simp [rawParam]
@@ -82,14 +82,13 @@ theorem walkParams_other (ext : Bool) (k : Nat) (v tail : Bytes) (hk : k ≠ 2)
     all_goals rw [if_neg (by omega), if_neg (by omega)]
 
 /-- After any well-formed capability parameters, a well-framed parameter of another type ends
-    the decoding: 2/5 for type 1 (Authentication Information), 2/0 for every other type (the code;
-    RFC 4271 §6.2 asks for 2/4 there). -/
+    the decoding: 2/5 for type 1 (Authentication Information), 2/4 for every other type (RFC 4271 §6.2). -/
 theorem decodeOpen_other_param (ext : Bool) (myAs hold bgpId : Nat) (gs : List (List Cap)) (k : Nat) (v tail : Bytes)
     (hf : wfFixed myAs hold bgpId = true) (hg : gs.all (wfGroup ext) = true) (hk : k ≠ 2)
     (hv : v.length < (if ext then 65536 else 256))
     (hl : (encParams ext gs ++ (rawParam ext k v ++ tail)).length < (if ext then 65536 else 255)) :
     decodeOpen (openRaw ext myAs hold bgpId (encParams ext gs ++ (rawParam ext k v ++ tail)))
-      = .error (if k = 1 then ⟨2, 5⟩ else malformed) := by
+      = .error (if k = 1 then ⟨2, 5⟩ else ⟨2, 4⟩) := by
   rw [decodeOpen_raw ext myAs hold bgpId _ hf hl]
   have lp := length_le_encParams ext gs
   have hfuel : gs.length ≤ (encParams ext gs ++ (rawParam ext k v ++ tail)).length + 1 := by
